@@ -27,6 +27,7 @@ from .vals import (
     mk_int,
     mk_str,
     root_of,
+    top_src,
 )
 
 NUM_TY = frozenset({"int", "float", "number", "bool"})
@@ -177,6 +178,7 @@ class Ctx:
         self.node_effects: Dict[int, set] = {}
         self.calls_map: Dict[tuple, CallRec] = {}
         self.ret_sites: Dict[int, Val] = {}
+        self.ret_states: Dict[int, State] = {}
         self.in_progress = False
         self.done_iter = -1
         self.recording = False
@@ -504,6 +506,7 @@ class FuncInterp(ModelsMixin, CallModelsMixin):
         ctx.effects = set()
         ctx.node_effects = {}
         ctx.ret_sites = {}
+        ctx.ret_states = {}
         ctx.unresolved = []
         st0 = State()
         names = list(self.fi.params)
@@ -616,7 +619,7 @@ class FuncInterp(ModelsMixin, CallModelsMixin):
         if obj[0] == "P":
             src = frozenset({("PF", obj[1], f)})
         elif r is not None:
-            src = frozenset({("P", r)})
+            src = frozenset({top_src(obj)})
         elif obj[0] == "G":
             src = frozenset({("G", obj[1])})
         else:
@@ -657,6 +660,7 @@ class FuncInterp(ModelsMixin, CallModelsMixin):
             if o[0] != "N":
                 return True
             tag = o[1][3] if isinstance(o[1], tuple) and len(o[1]) > 3 else ""
+            tag = str(tag).split("#")[0].split("~")[0]
             if isinstance(tag, str) and tag.startswith("obj:"):
                 x = tag[4:]
                 return x not in self.prog.classes or self.prog.is_subclass(x, c) or self.prog.is_subclass(c, x)
@@ -763,7 +767,7 @@ class FuncInterp(ModelsMixin, CallModelsMixin):
             it = self.ev(a.iter, st)
             el = self.iter_elem(it, st, a.iter)
             body = st.copy()
-            self.assign(a.target, el.add_dep(it.dep, EMPTY), body, a)
+            self.assign(a.target, el.add_dep(it.dep, it.mdep), body, a)
             body.pc[node.id] = (True, it.dep, EMPTY)
             outs["t"] = body
             outs["f"] = st
@@ -789,6 +793,7 @@ class FuncInterp(ModelsMixin, CallModelsMixin):
             v = self.ev(a.value, st) if a.value is not None else NONE
             v = self.pc_apply(v, st)
             self.ctx.ret_sites[node.id] = v
+            self.ctx.ret_states[node.id] = st
             self.ret = join(self.ret, v)
             outs["n"] = st
             outs["exc"] = self.exc_state(s_in, st)
@@ -1396,7 +1401,10 @@ class FuncInterp(ModelsMixin, CallModelsMixin):
             if ms:
                 self.ctx.unresolved.append(f"{self.loc(node)}: .{attr}() on unknown receiver (CHA)")
                 return Val(ty={"bfunc:" + m.qual for m in ms} | {"umeth:" + attr}, items=(base,), kind={"N"})
-        return Val(ty={"umeth:" + attr}, items=(base,), kind={"N"}, **d)
+        known = {"int", "float", "number", "bool", "None", "str"}
+        if tys and set(tys) <= known and attr not in ("is_integer", "bit_length", "conjugate", "limit_denominator", "as_integer_ratio", "join", "format", "strip", "split", "lower", "upper", "replace", "startswith", "endswith", "lstrip", "rstrip", "find", "index", "count", "__class__"):
+            return Val()  # AttributeError at run time: contributes nothing
+        return Val(ty={"umeth:" + attr}, items=(base.with_(ty=frozenset(tys) or base.ty),), kind={"N"}, **d)
 
     # ------------------------------------------------------------------ calls
     def ev_call(self, e: ast.Call, st: State) -> Val:
@@ -1550,16 +1558,26 @@ class FuncInterp(ModelsMixin, CallModelsMixin):
                 continue
             updates.append((tg, f, sub.val(v)))
         ret = sub.val(summ.ret) if summ.ret is not None else Val()  # bottom: callee never returns (yet)
+        strong: Dict[tuple, Val] = {}
+        weak: Dict[tuple, Val] = {}
         for tg, f, nv in updates:
             nv = nv.trunc()
             if len(tg) == 1 and next(iter(tg))[0] in ("P", "N"):
-                st.heap[(next(iter(tg)), f)] = nv
+                k = (next(iter(tg)), f)
+                strong[k] = join(strong.get(k), nv)  # several callee objects may map to one caller object
             else:
                 for o in tg:
-                    old = st.heap.get((o, f))
-                    if old is None:
-                        old = self.initial_field((o, f))
-                    st.heap[(o, f)] = join(old, nv) if old is not None else nv
+                    weak[(o, f)] = join(weak.get((o, f)), nv)
+        for k, nv in strong.items():
+            if k in weak:
+                weak[k] = join(weak[k], nv)
+            else:
+                st.heap[k] = nv
+        for k, nv in weak.items():
+            old = st.heap.get(k)
+            if old is None:
+                old = self.initial_field(k)
+            st.heap[k] = join(old, nv) if old is not None else nv
         return self.pc_apply_ret(ret, st)
 
     def pc_apply_ret(self, v: Val, st: State) -> Val:
@@ -1598,14 +1616,27 @@ class _Subst:
         self.fx, self.fi, self.args, self.st, self.node = fx, fi, args, st, node
         self.heap0 = dict(st.heap)  # values before the call
         self.ocache: Dict[tuple, frozenset] = {}
+        self.dcache: Dict[tuple, frozenset] = {}
+        self.byobj = None
         self.vcache: Dict[tuple, Val] = {}
         ns = set()
         for v in [summ.ret] + list(summ.heap.values()):
             if v is not None:
                 ns |= {o for o in v.all_pts() if o[0] == "N"}
         ns |= {k[0] for k in summ.heap if k[0][0] == "N"}
-        # one caller object per call site and allocation tag (bounded number of objects)
-        self.nmap = {o: ("N", fx.site(node, str(o[1][3]).split("#")[0] if isinstance(o[1], tuple) and len(o[1]) > 3 else "x")) for o in ns}
+        # caller objects: one per call site, allocation tag and rank (<= 3) among the callee's
+        # objects of that tag — numerator / denominator of fraction() stay apart, growth stays bounded
+        def base(o):
+            return str(o[1][3]).split("#")[0].split("~")[0] if isinstance(o[1], tuple) and len(o[1]) > 3 else "x"
+
+        bytag: Dict[str, list] = {}
+        for o in sorted(ns, key=lambda o: (o[1][1:3] if isinstance(o[1], tuple) else (0, 0), repr(o))):
+            bytag.setdefault(base(o), []).append(o)
+        self.nmap = {}
+        for tag, objs in bytag.items():
+            for k, o in enumerate(objs):
+                t2 = f"{tag}~{fi.name}"
+                self.nmap[o] = ("N", fx.site(node, t2 if k == 0 else f"{t2}#{min(k, 3)}"))
 
     def obj(self, o) -> frozenset:
         r = self.ocache.get(o)
@@ -1660,7 +1691,7 @@ class _Subst:
             if s[1] >= len(self.args):
                 return EMPTY
             a = self.args[s[1]]
-            return a.mdep if must else a.dep
+            return a.all_mdep() if must else a.all_dep()
         if s[0] == "PF":
             if s[1] >= len(self.args):
                 return EMPTY
@@ -1669,11 +1700,11 @@ class _Subst:
             for o in a.pts:
                 v = self.heap0.get((o, s[2]))
                 if v is not None:
-                    d = v.all_mdep() if must else v.all_dep()
+                    d = self.deep(v, must)
                 elif o[0] == "P":
                     d = frozenset({("PF", o[1], s[2])})
                 elif root_of(o) is not None:
-                    d = frozenset({("P", root_of(o))})
+                    d = frozenset({top_src(o)})
                 else:
                     d = a.mdep if must else a.dep
                 if out is None:
@@ -1688,6 +1719,33 @@ class _Subst:
                 out |= a.mdep if must else (a.dep if len(a.pts) != 1 or any(o[0] not in ("P", "N") for o in a.pts) else EMPTY)
             return frozenset(out)
         return frozenset({s})
+
+    def deep(self, v: Val, must: bool) -> frozenset:
+        """dependences of a value in the caller's heap including those of the objects it designates"""
+        key = (v.key(), must)
+        r = self.dcache.get(key)
+        if r is not None:
+            return r
+        if self.byobj is None:
+            self.byobj = {}
+            for (o, f), hv in self.heap0.items():
+                self.byobj.setdefault(o, []).append(hv)
+        out = set(v.all_mdep() if must else v.all_dep())
+        seen = set()
+        todo = list(v.all_pts()) if (not must or len(v.all_pts()) == 1) else []
+        while todo:
+            o = todo.pop()
+            if o in seen:
+                continue
+            seen.add(o)
+            for hv in self.byobj.get(o, ()):
+                out |= hv.all_mdep() if must else hv.all_dep()
+                nx = hv.all_pts()
+                if not must or len(nx) == 1:
+                    todo.extend(nx)
+        r = frozenset(out)
+        self.dcache[key] = r
+        return r
 
     def val(self, v: Val, d=0) -> Val:
         k = v.key()
